@@ -45,3 +45,19 @@ class hexnum_to_fraction_C(Contract):
 
     def raises(s):
         return {'ValueError': not hex_ok(s)}
+
+
+class is_dyadic_C(Contract):
+    target = 'fpy2.utils.fractions:is_dyadic'
+    params = {'x': 'Fraction | int'}
+    returns = 'bool'
+    properties = ['C06']
+    note = ('a symbolic Fraction is modelled as n/d with d >= 1; that d is in lowest terms is not modelled '
+            '(both the code and the spec read the same d); k & (k-1) uses law CL (pyvc/interp.py bitand)')
+
+    def post(x, result):
+        # dyadic  <=>  the (lowest-terms) denominator is a power of two
+        return {'dyadic': result == is_pow2(frac_den(x))}
+
+    def raises(x):
+        return {}
